@@ -51,6 +51,7 @@ type QCfg struct {
 	// notification faults (distributed)
 	NDelay int `json:"ndelay,omitempty"` // max delay in time units
 	NDup   int `json:"ndup,omitempty"`   // percent duplicated
+	NOther int `json:"nother,omitempty"` // percent of dequeues that are announced too (action "dequeued")
 }
 
 // Cfg is the explicit configuration of an episode (stored in replay files).
